@@ -41,6 +41,8 @@ def run(ctx: Ctx) -> None:
         subs = [n for n in walk_no_nested(f.node) if isinstance(n, ast.Subscript) and isinstance(n.value, ast.Attribute) and n.value.attr in ('iloc', 'loc', 'iat', 'at')]
         # the table an indexer is applied to: single-definition locals and copies (`.copy()`) are looked through
         frames = {id(n): unparse(_frame(f.node, n.value.value)) for n in subs}
+        # an indexer that addresses all rows (`.loc[:, cols]`, `.iloc[:]`) selects no rows: it is looked through (_frame), not judged
+        subs = [n for n in subs if not _all_rows(n)]
         sel = [n for n in subs if frames[id(n)] in ('self.data', 'self.individualMap')]
         other = [n for n in subs if frames[id(n)] in SNAPSHOTS and _is_snapshot(D, frames[id(n)])]
         if not sel and other:
@@ -59,7 +61,11 @@ def run(ctx: Ctx) -> None:
             ok = n.value.attr == 'iloc'
             # .loc with labels obtained from the positions (frame.index[positions]) is a selection by label: not decided here
             labels = any(isinstance(x, ast.Attribute) and x.attr == 'index' for x in ast.walk(inline_locals(f.node, n.slice)))
-            bylabel = n.value.attr in ('loc', 'at') and not labels
+            # a boolean mask (a comparison, isin, a negation) selects by condition, not by position: not decided here either
+            rows = inline_locals(f.node, n.slice.elts[0] if isinstance(n.slice, ast.Tuple) and n.slice.elts else n.slice)
+            mask = any(isinstance(x, ast.Compare) or (isinstance(x, ast.UnaryOp) and isinstance(x.op, ast.Invert)) or (isinstance(x, ast.Call) and call_name(x) in ('isin', 'duplicated', 'isna', 'notna', 'isnull', 'notnull', 'between'))
+                       for x in ast.walk(rows))
+            bylabel = n.value.attr in ('loc', 'at') and not labels and not mask
             ctx.add('C13.R1', f'{qn}:{frame}.{n.value.attr}', ok if (ok or bylabel) else None, (f.file, n.lineno),
                     f'{frame}.{n.value.attr}[{unparse(n.slice)[:50]}] ({why})' + ('' if ok else (': positions are used as labels - wrong rows (or KeyError) once the index has gaps' if bylabel else
                                                                                      ': not a selection by position in a form the rule understands')), f'{frame}.{n.value.attr}', positive=bylabel)
@@ -222,9 +228,21 @@ def _is_snapshot(D, text: str) -> bool:
 def _frame(func_node, e: ast.expr) -> ast.expr:
     """the table behind an expression: single-definition locals are replaced by their value, copies of a table are that table"""
     e = inline_locals(func_node, e)
-    while isinstance(e, ast.Call) and isinstance(e.func, ast.Attribute) and e.func.attr == 'copy' and not e.args and all(k.arg == 'deep' for k in e.keywords):
-        e = e.func.value
-    return e
+    while True:
+        if isinstance(e, ast.Call) and isinstance(e.func, ast.Attribute) and e.func.attr == 'copy' and not e.args and all(k.arg == 'deep' for k in e.keywords):
+            e = e.func.value
+        elif _all_rows(e):
+            e = e.value.value  # all rows of the table (possibly fewer columns): the same rows at the same positions
+        else:
+            return e
+
+
+def _all_rows(e: ast.expr) -> bool:
+    """`T.loc[:]`, `T.loc[:, cols]`, `T.iloc[:, :]` ...: an indexer whose row part is the full slice"""
+    if not (isinstance(e, ast.Subscript) and isinstance(e.value, ast.Attribute) and e.value.attr in ('loc', 'iloc')):
+        return False
+    rows = e.slice.elts[0] if isinstance(e.slice, ast.Tuple) and e.slice.elts else e.slice
+    return isinstance(rows, ast.Slice) and rows.lower is None and rows.upper is None and rows.step is None
 
 
 def _none_test(t: ast.expr, name: str):
